@@ -83,15 +83,21 @@ def rows(df):
 
 
 class det_uuid:
-    """uuid4 becomes a deterministic counter while active (dask names pure=False tasks with it)"""
+    """uuid4 becomes a deterministic counter while active (dask names pure=False tasks with it and breaks ties between
+    ready tasks by name). The high bits carry a per-process execution number so that names never repeat between
+    executions (dask-expr would hand back the cached graph of an earlier execution, with that execution's paths), the low
+    bits the call number, so the relative order of the names inside one execution is always the same."""
+    runs = [0]
 
     def __enter__(self):
         self.old = uuid.uuid4
+        det_uuid.runs[0] += 1
+        hi = (0xabc << 108) + (det_uuid.runs[0] << 64)
         c = [0]
 
         def f():
             c[0] += 1
-            return uuid.UUID(int=(0xabcdef << 96) + c[0])
+            return uuid.UUID(int=hi + c[0])
         uuid.uuid4 = f
 
     def __exit__(self, *a):
@@ -336,6 +342,66 @@ def e3b_harnesses():
     return H
 
 
+def run_two_packs(col, scratch, bound, shard):
+    """two client threads each call pack_partitions_to_parquet on the SAME Dask frame (different output paths, the same
+    tempdir_format with {uuid}); every filesystem call is a pre-emption point"""
+    import dask
+    import dask.dataframe as dd
+    from .c19 import dataset_state
+    P = frame6()
+    bad = {}
+
+    def run(chooser, tag):
+        work = os.path.join(scratch, f"two-{os.getpid()}-{tag}")
+        shutil.rmtree(work, ignore_errors=True)
+        os.makedirs(os.path.join(work, "tmpbase"))
+        fmt = os.path.join(work, "tmpbase", "t-{uuid}-{partition}")
+        with det_uuid(), dask.config.set(scheduler="synchronous"):
+            ddf = dd.from_pandas(fresh(P), npartitions=2)
+
+            def body(i):
+                def f():
+                    fs = VerifFS(yield_hook=lambda n, name, p: sched.maybe_yield(f"fs:{name}"))
+                    ret = ddf.pack_partitions_to_parquet(os.path.join(work, f"out{i}.parq"), filesystem=fs, npartitions=3, p=6,
+                                                         tempdir_format=fmt, _retry_args=RETRY)
+                    return rows(ret.compute())
+                return f
+            if chooser is None:
+                res = [body(0)(), body(1)()]
+                exc = [None, None]
+            else:
+                res, exc, _ = sched.run_threads(chooser, [body(0), body(1)])
+        obs = []
+        for i in (0, 1):
+            st = dataset_state(os.path.join(work, f"out{i}.parq"), os.path.join(work, "tmpbase"))
+            obs.append(("EXC:" + type(exc[i]).__name__ + ":" + str(exc[i])[:80]) if exc[i] is not None else
+                       json.dumps({"rows": res[i], "state": st}, sort_keys=True, default=str))
+        shutil.rmtree(work, ignore_errors=True)
+        return tuple(obs)
+
+    serial = run(None, "serial")
+
+    def once(ch):
+        return run(ch, "x")
+
+    def on_exec(prefix, obs, points):
+        col.count("evaluations")
+        col.count("transitions", len(points))
+        if obs != serial:
+            bad.setdefault(repr(obs)[:400], list(prefix))
+
+    st = sched.explore(once, bound, shard=shard, on_execution=on_exec)
+    col.count("states", st["executions"])
+    col.count("nontrivial", st["executions"] - 1)
+    col.count("exec:e3b:two_packs", st["executions"])
+    col.outcome(f"e3b:two_packs:bad={len(bad)}")
+    for k, pref in list(bad.items())[:2]:
+        col.violation("e3b.two_packs", {"engine": "E3b-packs", "bound": bound, "schedule": pref},
+                      f"two concurrent pack_partitions_to_parquet calls: schedule {pref} -> {k[:300]}")
+    col.sample({"engine": "E3b", "harness": "two concurrent pack_partitions_to_parquet calls", "bound": bound,
+                "executions": st["executions"], "choice_points_default": st["points_default"]})
+
+
 def run_e3b(col, name, bound, shard, scope="caches"):
     H = e3b_harnesses()
     make, ops = H[name]
@@ -560,12 +626,45 @@ def dask_ops(sched_name, nw):
         res.append(c18.rows(read_parquet_dask(w).compute()))
     return tuple(res)
 
+import math
+def big_shapes():
+    from spatialpandas.geometry import PolygonArray, LineArray, MultiPolygonArray
+    rings = []
+    for k in range(6):
+        n = 400 + 37 * k
+        pts = []
+        for i in range(n):
+            a = 2 * math.pi * i / n
+            r = 1.0 + 0.3 * math.sin(5 * a + k) + 1e-3 * k
+            pts += [math.pi * k + r * math.cos(a), math.e + r * math.sin(a)]
+        pts += pts[:2]
+        rings.append(pts)
+    pa = PolygonArray([[r] for r in rings] + [None])
+    la = LineArray(rings + [None])
+    ma = MultiPolygonArray([[[rings[0]], [rings[1]]], [[rings[2]]], None])
+    return pa, la, ma
+
+def measures():
+    pa, la, ma = big_shapes()
+    out = []
+    for a in (pa, la, ma):
+        out.append(tuple(np.nan_to_num(np.asarray(a.area), nan=-9).tolist()))
+        out.append(tuple(np.nan_to_num(np.asarray(a.length), nan=-9).tolist()))
+        out.append(tuple(map(tuple, np.nan_to_num(np.asarray(a.bounds), nan=-9).tolist())))
+        out.append(tuple(np.asarray(a.intersects_bounds((0.5, 2.0, 4.0, 3.5))).tolist()))
+    out.append(tuple(pa[0].area.hex() if hasattr(pa[0].area, "hex") else float(pa[0].area).hex() for _ in (0,)))
+    return tuple(out)
+
 numba.set_num_threads(1)
+ref_measures = measures()
 ref_dask = dask_ops("synchronous", 1)
 grid_nt = [1, 2, 4, 16]
 grid_nw = [1, 2, 4, 16] if tier == "thorough" else [2, 16]
 for nt in grid_nt:
     numba.set_num_threads(min(nt, numba.config.NUMBA_NUM_THREADS))
+    out["runs"] += 1
+    if measures() != ref_measures:
+        out["bad"].append({"what": "measures_depend_on_numba_threads", "numba_threads": nt})
     for (sn, nw) in [("synchronous", 1)] + [("threads", w) for w in grid_nw]:
         out["runs"] += 1
         got = dask_ops(sn, nw)
@@ -655,7 +754,12 @@ def plan(ctx):
         nsh_all = 4 if b_all == 2 else (16 if name.startswith("dask") else 1)
         for sh in range(nsh_all):
             units.append(("e3b", name, "all", b_all, (sh, nsh_all)))
+    for sh in range(8):
+        units.append(("packs", None, None, 2 if T else 1, (sh, 8)))
     units.append(("e3c", None, None, 2, None))
+    only = os.environ.get("VERIF_C18_ONLY")
+    if only:
+        units = [u for u in units if u[0] in only.split(",")]
     units.append(("free", None, None, None, None))
     return units
 
@@ -680,12 +784,19 @@ def run(ctx):
 
     def work(col, i):
         kind, name, W, bound, shard = units[i]
+        # ./check exports OMP_NUM_THREADS=1, which Arrow takes as the size of its CPU pool; a managed thread
+        # suspended inside an Arrow filesystem callback then starves the other thread's read (harness deadlock)
+        import pyarrow as pa
+        pa.set_cpu_count(8)
+        pa.set_io_thread_count(8)
         if kind == "e3a":
             run_e3a(col, scratch, name, W, bound, shard)
         elif kind == "e3b":
             run_e3b(col, name, bound, shard, scope=W)
         elif kind == "e3c":
             run_e3c(col, bound)
+        elif kind == "packs":
+            run_two_packs(col, scratch, bound, shard)
         else:
             run_free(col, scratch, ctx.tier)
 
@@ -695,7 +806,13 @@ def run(ctx):
     work(c0, order[0])
     ctx.col.merge(c0.dump())
     rest = order[1:]
-    core.pmap(ctx, lambda col, j: work(col, rest[j]), len(rest), timeout=4 * 3600)
+    try:
+        core.pmap(ctx, lambda col, j: work(col, rest[j]), len(rest), timeout=(3 * 3600 if ctx.thorough else 1200))
+    except core.HarnessError as ex:
+        if "timed out" not in str(ex):
+            raise
+        ctx.col.violation("hang", {"engine": "pool"}, "the schedule exploration did not terminate within its time limit "
+                          "(deadlock or hang of a managed thread / kernel): " + str(ex))
     c = ctx.col.counters
     ctx.coverage_extra.update({
         "states": int(c.get("states", 0)), "transitions": int(c.get("transitions", 0)),
@@ -728,6 +845,8 @@ def replay(ctx, case):
         run_e3b(col, case["harness"], case["bound"], None, scope=case.get("scope", "caches"))
     elif eng == "E3c":
         run_e3c(col, case["bound"])
+    elif eng == "E3b-packs":
+        run_two_packs(col, scratch, case["bound"], None)
     else:
         run_free(col, scratch, "quick")
     return col.violations
